@@ -120,7 +120,8 @@ class HelperExec(glue.Exec):
         if cf.get("may_raise", True):
             bad = st.fork()
             bad.effects.append(("callback-raised", j))
-            outs.append(("raise", Const(Exception), bad))
+            # an arbitrary exception instance: nothing is known about its arguments
+            outs.append(("raise", bad.new_obj("$exc", {"$type": Exception, "args": Opaque("tuple-of-unknown-length")}), bad))
         return outs
 
     def truth(self, v):
